@@ -226,7 +226,10 @@ def case_bands(B, cfg):
             by_rank = sorted(range(n[k]), key=lambda j: rk[j % len(rk)] * 1000
                              + j)
             for a, b in zip(by_rank, by_rank[1:]):
-                B.assume(S[t][a] < S[t][b])
+                if rk[a % len(rk)] == rk[b % len(rk)]:
+                    B.assume(S[t][a] == S[t][b])    # a tie
+                else:
+                    B.assume(S[t][a] < S[t][b])
         if cfg.get('distinct'):
             # bound on the number of paths: strict orderings only
             for a, b in itertools.combinations(S[t], 2):
@@ -438,6 +441,18 @@ def jobs(tier):
                     figure=f, times=[1.0], n_samples=[n_],
                     probs=[0.95, 0.85, 0.75], ranks=rk),
                     dict(FACADE, max_decisions=200000)))
+        # larger samples with ties (equal ranks = equal values): many equal
+        # samples at one end, at both ends, in the middle
+        tied = [[0, 1, 2, 3, 4, 4, 4, 4, 4], [0, 0, 0, 0, 0, 1, 2, 3, 4],
+                [4, 0, 4, 1, 4, 2, 4, 3, 4, 4, 4, 4],
+                [0, 0, 0, 0, 1, 2, 3, 4, 5, 5, 5, 5],
+                [0, 1, 2, 2, 2, 2, 2, 2, 3, 4],
+                [5, 5, 5, 0, 0, 0, 1, 2, 3, 4, 5, 5, 5, 5, 5, 5]]
+        for k_, rk in enumerate(tied if not q else tied[:4]):
+            out.append(('bands', 'case_bands', dict(
+                figure=f, times=[1.0], n_samples=[len(rk)],
+                probs=[[0.5, 0.3, 0.9], [0.5, 0.2, 0.8]][k_ % 2], ranks=rk),
+                dict(FACADE, max_decisions=200000)))
         # many samples (what predictive models deliver): with 200 samples a
         # percentile that is off by half a percent moves a limit by a rank
         for n_ in ((200,) if q else (200, 150, 320)):
@@ -467,7 +482,8 @@ BOUNDS = dict(
           'ordering); 8, 12 and 20 samples in 4 fixed strict orderings '
           '(sorted, reversed, two scrambled) with 3 probabilities each; 13 '
           'and 34 samples in 2 orderings with the probabilities 0.95, 0.85, '
-          '0.75 (percentiles with a third decimal); 200 samples in 2 '
+          '0.75 (percentiles with a third decimal); 9-12 samples with 4-7 '
+          'equal ones at one or both ends; 200 samples in 2 '
           'orderings with 0.95, 0.99, 0.85; '
           'frames with repeated index labels and / or a sample without value',
     thorough='every pair of layouts; up to 5 samples with ties, 6-7 distinct '
